@@ -187,6 +187,21 @@ def _generic_shared(rng, tier, i):
         if sp["k"] in S.CONTAINERS:
             break
     root = S.build(sp)
+    # the tree may be in any state when the shared node is installed: fresh, or derived (non-zero entries
+    # although this very object was never filled) by a merge, a scaling or a copy of a filled tree
+    pre = rng.choice(["fresh", "fresh", "merged", "scaled", "copied"])
+    if pre != "fresh":
+        try:
+            base = C.fill_all(S.build(sp), S.gen_stream(rng, sp, rng.randint(1, 4), {"nonpos_p": 0.0}))
+            if pre == "merged":
+                root = base + C.fill_all(S.build(sp), S.gen_stream(rng, sp, 2, {"nonpos_p": 0.0}))
+            elif pre == "scaled" and not S.has_transform(sp):
+                root = base * 2.0
+            else:
+                root = base.copy()
+        except Exception:  # noqa: BLE001
+            root = S.build(sp)
+            pre = "fresh"
     slots = _slots(root)
     if len(slots) < 2:
         return None
@@ -199,7 +214,7 @@ def _generic_shared(rng, tier, i):
         s1(x)
         s2(x)
         if g1() is x and g2() is x:
-            return root, x, sp, "generic:%s+%s" % (p1[-1].split("[")[0], p2[-1].split("[")[0]), "/".join(p1) + " & " + "/".join(p2)
+            return root, x, sp, "generic:%s+%s" % (p1[-1].split("[")[0], p2[-1].split("[")[0]), "/".join(p1) + " & " + "/".join(p2) + " (root %s)" % pre
     return None
 
 
